@@ -147,4 +147,24 @@ theorem sasl_pending_only_after_ack (c : Client) (l : Line) (hr : c.saslRemainin
     rw [stHandler_keeps _ h hh]; exact h1
   · exact h1
 
+
+/-- `initialise()` (run by every Connect) leaves no capability advertised or held: the hypothesis `c.supported = []`
+of `req_is_intersection` is what the code establishes at the start of EVERY connection, not only of the first
+(defect 11: it used not to - a second connection asked its server for what the first server had advertised) -/
+theorem connect_forgets_capabilities (c : Client) :
+    (wipeOnConnect c).supported = [] ∧ (wipeOnConnect c).curr = [] ∧ (wipeOnConnect c).cfg = c.cfg := by
+  refine ⟨rfl, rfl, ?_⟩
+  simp only [wipeOnConnect, tk]
+  cases c.st <;> rfl
+
+/-- on every connection - the first or a later one of the same client, whatever earlier servers advertised or
+acknowledged - the request after `CAP * LS :advertised` names exactly wanted ∩ advertised -/
+theorem req_is_intersection_every_connection (c : Client) (adv : List Bytes)
+    (hw : ∀ n ∈ c.cfg.caps, capName n) (ha : ∀ n ∈ adv, capName n) (hshort : ∀ n ∈ c.cfg.caps, n.length ≤ 200) :
+    okAfterLS c.cfg.caps c.cfg.sasl.isSome adv (negotiate (wipeOnConnect c) adv).out = true := by
+  have h := connect_forgets_capabilities c
+  have := req_is_intersection (wipeOnConnect c) adv h.1 (by rw [h.2.2]; exact hw) ha (by rw [h.2.2]; exact hshort)
+  rw [h.2.2] at this
+  exact this
+
 end Props.C19
